@@ -90,6 +90,7 @@ class Matcher:
         self.translator_name = None
         self.sorted_iter = None
         self.separators: list[str] = []
+        self.drop_empty = False
         self._scan(self.expr, 0)
         if self.translator_name is None:
             raise AnalysisError("no `SEP.join(translator(p) for p in self.paths)` inside the compiled expression")
@@ -141,7 +142,12 @@ class Matcher:
             if it not in ("self.paths", "sorted(self.paths)", "list(self.paths)"):
                 raise AnalysisError(f"alternation ranges over {it}, not over self.paths")
             if g.ifs:
-                raise FilteredAlternation([ast.unparse(c) for c in g.ifs], e)
+                if len(g.ifs) == 1 and ast.unparse(g.ifs[0]) == ast.unparse(g.target):
+                    # `... for path in self.paths if path`: only the EMPTY glob is dropped; whether that changes what the item
+                    # matches is decided on the languages (R1), with the empty glob among the test lists
+                    self.drop_empty = True
+                else:
+                    raise FilteredAlternation([ast.unparse(c) for c in g.ifs], e)
             elt = gen.elt
             if isinstance(elt, ast.Call) and isinstance(elt.func, ast.Name) and len(elt.args) == 1 \
                     and ast.unparse(elt.args[0]) != ast.unparse(g.target) \
@@ -158,6 +164,8 @@ class Matcher:
 
     def regex_for(self, globs: list[str]) -> str:
         order = sorted(globs) if self.sorted_iter else list(globs)
+        if self.drop_empty:
+            order = [g for g in order if g]
 
         def ev(e) -> str:
             if isinstance(e, ast.Constant):
@@ -379,6 +387,33 @@ def is_minimal(glob: str, bad: set[str]) -> bool:
 
 
 # ------------------------------------------------------------------ rules
+def _search_nonempty(a: Lang, b: Lang, nonempty: Lang):
+    """difference(a, b) restricted to non-empty strings (three-way product search)."""
+    from collections import deque
+    chars = a.nfa.alpha.chars
+    _, ta, aa = a.dfa()
+    _, tb, ab = b.dfa()
+    start = (0, 0, False)
+    prev = {start: None}
+    q = deque([start])
+    while q:
+        cur = q.popleft()
+        if cur[2] and aa[cur[0]] != ab[cur[1]]:
+            out = []
+            node = cur
+            while prev[node] is not None:
+                p, c = prev[node]
+                out.append(chars[c])
+                node = p
+            return ("only-first" if aa[cur[0]] else "only-second", "".join(reversed(out)))
+        for c in range(len(chars)):
+            nxt = (ta[cur[0]][c], tb[cur[1]][c], True)
+            if nxt not in prev:
+                prev[nxt] = (cur, c)
+                q.append(nxt)
+    return None
+
+
 def rule_model(ck: Check, repo: Repo):
     r = ck.rule("R1", "glob translator extracted as a finite transducer; literal emissions escaped; full-match wrapper")
     global _TR
@@ -421,7 +456,10 @@ def rule_model(ck: Check, repo: Repo):
     # an item with several globs matches exactly the union of the single-glob languages (any order of the set)
     alpha = path_alphabet()
     from ..relang import union
-    for pair in (("a", "b/*"), ("*.a", "a/**"), ("a*", "*b"), ("b", "a"), ("a/*", "a")):
+    pairs = [("a", "b/*"), ("*.a", "a/**"), ("a*", "*b"), ("b", "a"), ("a/*", "a")]
+    if m.drop_empty:
+        pairs += [("", "a"), ("",)]
+    for pair in pairs:
         for globs in (list(pair), list(reversed(pair))):
             both = Lang.from_regex(m.regex_for(globs), m.flags, alpha, mode)
             singles = []
@@ -430,6 +468,9 @@ def rule_model(ck: Check, repo: Repo):
                 singles.append(Lang.from_parts(alpha, narrow_parts(t), g))
             u = union(alpha, singles)
             d = difference(both, u)
+            if d is not None and d[1] == "" and m.drop_empty:
+                # the two differ on the EMPTY path only - no file has an empty relative path; look for a real witness
+                d = _search_nonempty(both, u, None)
             r.instance(f"alternation:{globs}", {"globs": globs, "regex": m.regex_for(globs), "difference": d})
             if d is not None:
                 r.violation(qual, f"an item with the globs {sorted(globs)} does not match the union of the two",
